@@ -16,8 +16,9 @@ RULE = ("case = (input text, expiry point k): the virtual clock advances one tic
         "inputs (<= 700 reads), stratified k (all k <= 60, then every 7th/37th, plus the last 20) for larger ones, incl. n "
         "repeated ambiguous tokens (3^n candidate sequences). Oracles on the ordered event trace: never raises; yields are "
         "a prefix of the unlimited run's; ctparse() returns the best of that prefix or an empty result; no work event after "
-        "the deadline check that raised; between two consecutive checks <= 1 pre-filter analysis and <= |rules| x "
-        "|matches| applications and scorings (+|matches| final scorings); timeout=0 never reads the clock in a check. "
+        "the deadline check that raised; between two consecutive checks <= 1 pre-filter analysis, <= 1 partial parse "
+        "expanded or emitted (identity of the object apply_rule / score_final is called on) and <= |rules| x |matches| "
+        "applications and scorings (+|matches| final scorings); timeout=0 never reads the clock in a check. "
         "non-trivial = the deadline really fired inside the run; distinct on (text, k).")
 ASSUMPTIONS = ["the deadline closure is the library's own (ctparse.timers.timeout); only the clock it reads is virtual",
                "shipped (deterministic) scorer, so the unlimited run is a valid reference for the prefix oracle"]
@@ -33,6 +34,7 @@ class Trace:
     def __init__(self):
         self.ev = []
         self.now = 0
+        self.keep = []   # keeps observed objects alive so that ids stay unique within a run
 
     def read(self):
         v = self.now
@@ -78,6 +80,17 @@ def setup_worker(ctx):
         return orig_filter(self, rules)
 
     PP._filter_rules = _filter_rules
+    # expansion of one partial parse = the apply_rule calls on one PartialParse object
+    orig_apply = PP.apply_rule
+
+    def apply_rule(self, *a, **k):
+        tr = st["trace"]
+        if tr is not None:
+            tr.keep.append(self)
+            tr.ev.append(("expand", id(self)))
+        return orig_apply(self, *a, **k)
+
+    PP.apply_rule = apply_rule
     # rule applications
     reg = L.registry
     for name, (fn, pats) in list(reg.items()):
@@ -97,6 +110,8 @@ def setup_worker(ctx):
 
         def score_final(self, txt, ts_, pp, prod):
             if st["trace"] is not None:
+                st["trace"].keep.append(pp)
+                st["trace"].ev.append(("expand", id(pp)))
                 st["trace"].ev.append(("score", "final"))
             return inner.score_final(txt, ts_, pp, prod)
 
@@ -149,6 +164,7 @@ def check_trace(L, tr, nmatches):
     bound_apply = R * max(1, nmatches)
     bound_score = bound_apply + max(1, nmatches)
     seg = {"analysis": 0, "apply": 0, "score": 0}
+    expanded = set()
     raised = False
     for kind, x in tr.ev:
         if kind == "check":
@@ -157,6 +173,13 @@ def check_trace(L, tr, nmatches):
             if x.startswith("raise"):
                 raised = True
             seg = {"analysis": 0, "apply": 0, "score": 0}
+            expanded = set()
+            continue
+        if kind == "expand":
+            expanded.add(x)
+            if len(expanded) > 1:
+                pr.append(("several-partial-parses-expanded-between-checks", "%d partial parses were expanded/emitted since the last deadline check" % len(expanded)))
+                break
             continue
         if kind in ("analysis", "apply", "score", "yield"):
             if raised:
